@@ -16,6 +16,7 @@ import (
 	"net/http"
 	"strings"
 	"sync"
+	"sync/atomic"
 	"time"
 
 	crlpkg "github.com/notaryproject/notation-core-go/revocation/crl"
@@ -97,7 +98,12 @@ func (w *worldRT) match(req *http.Request) (string, rtHandler) {
 	return best, w.handlers[best]
 }
 
+// exchangesInFlight: requests / fetches that have entered a harness transport or fetcher and not yet left it
+var exchangesInFlight int32
+
 func (w *worldRT) RoundTrip(req *http.Request) (*http.Response, error) {
+	atomic.AddInt32(&exchangesInFlight, 1)
+	defer atomic.AddInt32(&exchangesInFlight, -1)
 	u, h := w.match(req)
 	if h == nil {
 		return nil, fmt.Errorf("worldRT: no handler for %s", req.URL)
@@ -657,6 +663,8 @@ type worldFetcher struct {
 func newWorldFetcher() *worldFetcher { return &worldFetcher{res: map[string]fetchResult{}} }
 
 func (f *worldFetcher) Fetch(ctx context.Context, url string) (*crlpkg.Bundle, error) {
+	atomic.AddInt32(&exchangesInFlight, 1)
+	defer atomic.AddInt32(&exchangesInFlight, -1)
 	f.mu.Lock()
 	f.log = append(f.log, url)
 	r, ok := f.res[url]
